@@ -26,6 +26,25 @@ def native(contract, name, conc, notes):
     return r
 
 
+def native_fmmu(name, conc, notes):
+    """the real SterilePacket.append_fmmu on a fresh packet with the model's
+    FMMU sizes and terminal counts"""
+    from ebpfcat.ebpfcat import SterilePacket
+    f = conc.get("self", {}) if isinstance(conc, dict) else {}
+    p = SterilePacket()
+    p.fmmu_in_size = max(1, min(int(f.get("fmmu_in_size", 4) or 4), 200))
+    p.fmmu_out_size = max(1, min(int(f.get("fmmu_out_size", 4) or 4), 200))
+    p.fmmu_in_count, p.fmmu_out_count = 3, 2      # three reading terminals, two of them written
+    p.append_fmmu(0x1000)
+    lrd, lwr = p.data[0], p.data[1]
+    ok = lrd[2] == 3 and lwr[2] == 2 and p.counters[p.size - 2] == 2
+    return {"inputs": {"fmmu_in_size": p.fmmu_in_size, "fmmu_out_size": p.fmmu_out_size,
+                       "terminals read": 3, "terminals written": 2},
+            "reproduced": not ok,
+            "detail": f"real SterilePacket.append_fmmu: expected working counters LRD={lrd[2]} (3 terminals read), "
+                      f"LWR={lwr[2]} (2 terminals written), counters={p.counters}"}
+
+
 def run(tier, seed):
     from contracts import c30_slow as S
     rep = R.Report("C30", tier, seed)
@@ -35,6 +54,13 @@ def run(tier, seed):
                "count (established by SterilePacket.append, C11/C18); positions do not overlap")
     rep.assume("devices are under their own contracts (C19/C27); the device list is empty here")
     rep.bound("bounded in the number of datagrams of the frame (0..3); positions, counts, frame bytes unbounded")
+    # where the expected counts come from: SterilePacket.append records the
+    # count it is given at the position of the datagram's working counter, and
+    # append_fmmu passes the number of reading / writing terminals (C18
+    # contracts, re-proved here so that a change in them fails this check too)
+    from contracts import c18_alloc as S18
+    api.verify(S18.s_append, rep)
+    api.verify(S18.s_append_fmmu, rep, replay=native_fmmu)
     for c in S.CONTRACTS:
         api.verify(c, rep, replay=lambda n, i, nt, c=c: native(c, n, i, nt))
     return rep.finish(
